@@ -12,6 +12,9 @@ MAP = [
     ('py4hw/emulation/', 'C01 C02 C03 C16 C19 C20'),
     ('py4hw/logic/protocol/', 'C01 C02 C03 C17 C19'),
     ('py4hw/logic/simulation.py', 'C04 C05 C06 C10 C15 C17 C20'),
+    ('py4hw/simulation.py', 'C04 C05 C06 C10 C11 C15'),
+    ('py4hw/logic/storage.py', 'C01 C02 C03 C05 C06 C09 C10 C16 C17 C19'),
+    ('py4hw/logic/arithmetic_fxp.py', 'C01 C03 C07 C14'),
     ('py4hw/logic/arithmetic_fp.py', 'C01 C03 C07 C08'),
 ]
 files = re.findall(r'^\+\+\+ b/(\S+)', open(sys.argv[1]).read(), re.M)
